@@ -239,9 +239,53 @@ def run(chk, model_ok=True):
             prev.append(req)
             if hit is not None and view.kind == "v3" and view.engine == b"":
                 view.engine = hit.fields["engine_id"]
+    # the real clients (their own receive loops around the socket): datagrams that do not answer the pending
+    # request arrive one by one BEFORE the reply; the reply must still be delivered, and only the reply
+    from props import c18
+    n_cli = 0
+    orig_build = c18.build
+
+    def build2(peer, req, kind, value):
+        # replies to somebody else's / an earlier request carry another value than the genuine reply
+        return orig_build(peer, req, kind, 4242 if kind == "r" else 666)
+    c18.build = build2
+    try:
+        cli_peers = [e2e.Peer("v1"), e2e.Peer("v2c"), e2e.Peer("v3", auth=2, priv=2, auth_kt="localized", priv_kt="localized")]
+        cases = []
+        for k in range(12 if quick else 240):
+            ticks = sorted(rng.sample(range(0, c18.T_TICKS - 2), rng.randrange(1, 4)))
+            sched = [(t, "s") for t in ticks] + [(rng.randrange(ticks[-1], c18.T_TICKS - 1), "r")]
+            cases.append({"mode": "sync" if k % 2 == 0 else "async", "peer": cli_peers[k % 3], "sched": sched})
+        import asyncio
+        import concurrent.futures
+        with concurrent.futures.ThreadPoolExecutor(max_workers=6) as ex:
+            futs = [(c, ex.submit(c18.run_sync, c["peer"], c["sched"])) for c in cases if c["mode"] == "sync"]
+
+            async def all_async():
+                asyncio.get_running_loop().set_exception_handler(lambda lp, ctx: None)
+                out = []
+                ac = [c for c in cases if c["mode"] == "async"]
+                for i in range(0, len(ac), 6):
+                    out += await asyncio.gather(*[c18.run_async_one(c["peer"], c["sched"]) for c in ac[i:i + 6]])
+                return out
+            ares = asyncio.run(all_async())
+            for c, f in futs:
+                c["result"], c["elapsed"] = f.result()
+        for c, (r, el) in zip([c for c in cases if c["mode"] == "async"], ares):
+            c["result"], c["elapsed"] = r, el
+        for c in cases:
+            n_cli += 1
+            r = c["result"]
+            if r[:2] != ("ok", 4242):
+                fail(f"{c['mode']} SnmpSession.get on {c['peer'].label}: non-matching datagrams at ticks {[t for t, k in c['sched'] if k == 's']} "
+                     f"then the reply at tick {c['sched'][-1][0]} (timeout {c18.T_TICKS} ticks of {c18.TICK}s) gave {r!r:.80} "
+                     f"after {c['elapsed']:.3f}s instead of the reply's value 4242",
+                     "# client-level: " + c["mode"] + " " + c["peer"].label + " " + str(c["sched"]))
+    finally:
+        c18.build = orig_build
     nl, nd = sessions.model_compare(chk, all_sess, model_ok)
     chk.coverage.update({
-        "evaluations": n_recv,
+        "evaluations": n_recv + n_cli, "client_level_cases": n_cli,
         "distinct_nontrivial": len(distinct),
         "rule": "scripts of 1..4 consecutive requests (get, get_many, getnext, getbulk) per session (v1, v2c, v3 with every "
                 "digest x cipher), each reply subjected to 1..3 faults from {deliver, drop, duplicate, delay past the next request, "
